@@ -4,6 +4,7 @@ import MpcVerif.Model.Levels
 import MpcVerif.Model.Passes
 import MpcVerif.Model.PassesWF
 import MpcVerif.Model.LevelsWrap
+import MpcVerif.Model.SsaDiv
 
 namespace Drv.C09
 open Mpc Drv
@@ -112,6 +113,10 @@ def circLine (c : Circuit) : String :=
   circuit as single-assignment and topologically ordered (run on the REAL compiled circuit of every configuration)
 * `chain <tag> <k>` → the witness of C09_wrapped_levels_not_topological / _wrong_output executed:
   `topo=<b>;g=<gates of invChain (2^k+1) sorted with a k-bit level field>;c=<output on x = 1>;ref=<invChain output>`
+* `div <tag> <form> <w> <wb> <k> <xop> <a:b,a:b,...>` → `inst=<n>;out=<o.o,o.o,...>`: the MEANING (`ssaEval` of
+  `divForm`, Model/SsaDiv.lean) of a division-sweep program on every operand pair (decimal), and the number of
+  unsigned divider instances (`divInstancesOf`) of one run; the harness prints the outputs of the REAL GMW-target
+  circuit on the same pairs (C09_program_target_equiv_div: equal unless the estimate hypothesis fails on an instance)
 Circuits are evaluated by `Circuit.computeArr` (= `Circuit.compute`, C09_computeArr_eq).
 -/
 def handle (args : List String) : String :=
@@ -159,6 +164,25 @@ def handle (args : List String) : String :=
     match parseCircuit nw nin nout gates with
     | some c => s!"ssa={decide (c.nIn ≤ c.numWires) && (c.absRun #[]).isSome}"
     | none => "bad-op"
+  | ["div", _tag, form, w, wb, k, xop, pairs] =>
+    match w.toNat?, wb.toNat?, k.toNat? with
+    | some w, some wb, some k =>
+      match Mpc.SsaC.divForm form w wb k xop with
+      | none => "bad-op"
+      | some (ins, steps) =>
+        let ps : List (Nat × Nat) := (pairs.splitOn ",").filterMap fun p =>
+          match p.splitOn ":" with
+          | [a, b] => do some (← a.toNat?, ← b.toNat?)
+          | _ => none
+        let outs := ps.map fun (a, b) =>
+          match Mpc.Mpcl.Ssa.ssaEval (Array Nat) ins steps [a, b] with
+          | some r => ".".intercalate (r.map fun x => toString x.1)
+          | none => "undef"
+        let inst := match ps with
+          | (a, b) :: _ => (Mpc.SsaC.divInstancesOf (Array Nat) ins steps [a, b]).length
+          | [] => 0
+        s!"inst={inst};out={",".intercalate outs}"
+    | _, _, _ => "bad-op"
   | ["chain", _tag, k] =>
     match k.toNat? with
     | some k =>
